@@ -15,20 +15,20 @@ CHECKS = {
    text="Within the bounds (all histories of <=4/5 operations over set/append/remove of standard and custom headers with values of different lengths, cookies, body kinds, drop_content, statuses; GET and HEAD) TLC proves that the modelled mechanism keeps `size` exact and emits each live header once; TLC's histories plus random ones (8-40 ops over all 37 user-settable standard headers) are executed on the real code and every intermediate header block and the final wire are judged by the TLA+ oracle `HeadersOK`/`WireOK`; buffer overruns are observed through the guarded capacity assertion. Right level: the property quantifies over operation histories.",
    note="trusted: harness HTTP response parser, concretisation table, the capacity assertion hook; not compared: header order, Date value; framing headers only manipulated through body operations; 1xx/304 not generated"),
  "C01": dict(level=MC, design="§4 C01",
-   technique="TLA+ spec Router.tla: TLC checks the radix-tree mechanism (register/merge, compression, child sort, take_through, search) against the segment-wise oracle over all registration orders; TLC-built applications (exhaustive + -simulate) and seeded random ones are assembled on the real router and every request's observation is judged by Trace_Router.tla (AllowedHandlers, ExpectedParams)",
-   text="Within the bounds TLC proves that the modelled tree dispatches every bounded path as the oracle allows, whatever the registration order, and shows the byte-prefix counterexample without the segment-boundary condition. Applications emitted by TLC (every order of <=2/3 routes of depth <=2, method subsets, one mount level; simulated trees of up to 3 applications) plus random ones are built through the public API on the real code; requests derived from the routes (instances, one byte more/less per segment, extra/missing/empty segments, trailing slashes, every method) are parsed by the real Request::read and handled by the real router; handler identity, params, status and HEAD body are judged in TLA+.",
+   technique="TLA+ spec Router.tla: TLC checks the radix-tree mechanism (register/merge, compression, child sort, take_through, search) against the segment-wise oracle over all registration orders; TLC-built applications (exhaustive + -simulate) and seeded random ones are assembled on the real router and every request's observation is judged by Trace_Router.tla (AllowedHandlers, ExpectedParams) Composition: end-to-end runs of the real Session::manage over loopback serving TLC-built and random applications are validated event by event (cfg(ohkami_verif) events of the session loop, fang/handler log) against Server.tla by Trace_Server; unexplained `handler` events and DispatchInv count for this property.",
+   text="Within the bounds TLC proves that the modelled tree dispatches every bounded path as the oracle allows, whatever the registration order, and shows the byte-prefix counterexample without the segment-boundary condition. Applications emitted by TLC (every order of <=2/3 routes of depth <=2, method subsets, one mount level; simulated trees of up to 3 applications) plus random ones are built through the public API on the real code; requests derived from the routes (instances, one byte more/less per segment, extra/missing/empty segments, trailing slashes, every method) are parsed by the real Request::read and handled by the real router; handler identity, params, status and HEAD body are judged in TLA+. The composition adds ~1 900 (quick) / ~7 000 (thorough) connections whose every event is a step of Server.tla.",
    note="routes with <=2 params; where the text leaves backtracking / method shadowing open both outcomes are accepted; percent-escapes not generated here; trusted: harness application assembly and concretisation table, response parser"),
  "C04": dict(level=MC, design="§4 C04",
-   technique="TLA+ spec Router.tla/RouterApp.tla: TLC checks that the fang lists of the finalised tree equal the applications covering each path (scope and onion order) for every registration order; TLC-built application trees with instrumented fangs are run on the real router and the enter/leave log of every request is judged against OnionTrace by Trace_Router.tla",
-   text="TLC proves within the bounds that with the inherit+guarded-merge compression every path is wrapped by exactly the fangs of the applications whose mount prefix covers it, outermost first, and shows the counterexample for the original merge rule. Application trees emitted by TLC (exhaustive 2 applications, simulated 3 applications with up to 2 fangs each, local fangs, param/static mount prefixes, one early-answering fang) and random ones are assembled on the real code with logging fangs; for every request (hits, misses inside/outside each mount, near misses of the prefix, unregistered methods) the log must equal the onion trace computed in TLA+.",
+   technique="TLA+ spec Router.tla/RouterApp.tla: TLC checks that the fang lists of the finalised tree equal the applications covering each path (scope and onion order) for every registration order; TLC-built application trees with instrumented fangs are run on the real router and the enter/leave log of every request is judged against OnionTrace by Trace_Router.tla Composition: the same end-to-end traces validated against Server.tla (every enter/leave event must extend a prefix of an onion trace of the request; the onion is complete when Router::handle returns); unexplained enter/leave/handled events count for this property.",
+   text="TLC proves within the bounds that with the inherit+guarded-merge compression every path is wrapped by exactly the fangs of the applications whose mount prefix covers it, outermost first, and shows the counterexample for the original merge rule. Application trees emitted by TLC (exhaustive 2 applications, simulated 3 applications with up to 2 fangs each, local fangs, param/static mount prefixes, one early-answering fang) and random ones are assembled on the real code with logging fangs; for every request (hits, misses inside/outside each mount, near misses of the prefix, unregistered methods) the log must equal the onion trace computed in TLA+. The composition adds ~1 900 (quick) / ~7 000 (thorough) connections whose fang events are stepped through Server.tla.",
    note="side condition of the property enforced by the generators (exclusive mount prefixes, no static sibling of a param prefix segment); fang tuples up to arity 4, local tuples up to 2; trusted: TraceFang in harness/src/router.rs"),
  "C02": dict(level=MC, design="§4 C02",
    technique="TLA+ spec HttpParse.tla: the supported request grammar as a machine (one action per grammar token, 30 fault actions); every complete behaviour is a request whose meaning Denotes() and whose allowed treatment ObsOK() are TLA+ operators; behaviours enumerated by TLC (exhaustive per family + -simulate) and seeded random requests are concretised and presented as the first read of a connection to the real Request::read; Trace_HttpParse.tla judges every observation",
    text="TLC enumerates the grammar machine: header lines in four letter cases with repeated names and long values, every method x target x query shape, bodies of four sizes around the 1 KiB buffer x NUL first byte x NUL inside x Content-Length spelling, and every fault action (truncation at seven places, bad versions, missing separators, non-numeric/overflowing/empty Content-Length, NUL and non-UTF-8 bytes in target and values, unknown methods, non-origin-form targets, over-long lines) on three base requests. The real parser is run on the concrete bytes; for well-formed requests every public accessor (method, path.str(), query.iter(), typed header accessors, headers.get in two spellings, payload(), Debug) must return what the request denotes, without accessor panics and without waiting for input that had arrived; malformed bytes must be answered >= 400 or by closing.",
    note="only clearly malformed inputs generated; bare LF may be accepted or refused; error status free; first read only (segmentation is C06); trusted: concretisation table / fault applier / reverse table in harness/src/parse.rs, ScriptedReader"),
  "C05": dict(level=MC, design="§4 C05",
-   technique="TLA+ spec Conn.tla (session loop + reads as actions over byte cells; Ideal(reqs) as oracle) model-checked with TLC; TLC-enumerated request histories (one segment per request) and random longer ones are executed on the real code twice (session-loop steps over a scripted reader via ohkami::__verif; the real Session::manage over a loopback socket); Trace_Conn.tla judges order, per-request payload, equality with the fresh-connection response and the end of the session",
-   text="TLC proves within the bounds that the modelled loop answers every request of a keep-alive connection in order with its own payload when each request arrives as one segment, and enumerates all histories of <=2/3 requests over heads of 1-2 cells and bodies from none to beyond the 1 KiB buffer, with Connection: close anywhere, NUL bytes at the start and inside bodies, many headers and a context-setting marker rotating through the scenarios; random histories have up to 10 requests. On the real code every response is compared byte for byte (Date excluded) with the response the same request gets alone on a fresh connection, from a handler that echoes everything observable (method, path, query, header map, payload digest, path param, context entry).",
+   technique="TLA+ spec Conn.tla (session loop + reads as actions over byte cells; Ideal(reqs) as oracle) model-checked with TLC; TLC-enumerated request histories (one segment per request) and random longer ones are executed on the real code twice (session-loop steps over a scripted reader via ohkami::__verif; the real Session::manage over a loopback socket); Trace_Conn.tla judges order, per-request payload, equality with the fresh-connection response and the end of the session Composition: connections of up to 4 requests to applications with fangs over the real Session::manage, every hook event (read-start, read, parsed(close), handled, sent, rejected, close) a step of Server.tla with InOrder / NoReadAfterClose checked in every state; events of the loop that Server.tla does not explain, responses out of order and crashes count for this property.",
+   text="TLC proves within the bounds that the modelled loop answers every request of a keep-alive connection in order with its own payload when each request arrives as one segment, and enumerates all histories of <=2/3 requests over heads of 1-2 cells and bodies from none to beyond the 1 KiB buffer, with Connection: close anywhere, NUL bytes at the start and inside bodies, many headers and a context-setting marker rotating through the scenarios; random histories have up to 10 requests. On the real code every response is compared byte for byte (Date excluded) with the response the same request gets alone on a fresh connection, from a handler that echoes everything observable (method, path, query, header map, payload digest, path param, context entry). The composition adds ~1 900 (quick) / ~7 000 (thorough) connections validated event by event against the session-loop machine of Server.tla.",
    note="quantifier of the property: one segment per request; on the socket a response is awaited before the next request is written; trusted: harness/src/conn.rs (padding to exact cell sizes, loop mirror for the in-memory execution, response splitter), ScriptedReader, parse_response, tokio loopback"),
  "C06": dict(level=MC, design="§4 C06",
    technique="TLA+ spec Conn.tla: segmentation as data; TLC checks that the modelled reads (first read, head loop, payload from buffer, read_exact, discarded leftovers) produce Ideal(reqs) for every request sequence x segmentation in bounds except where two requests share a segment (named deviation), and that with carry-over the property holds everywhere; every scenario of the model plus random ones is executed on the real code (scripted in-memory reader and real Session::manage over loopback TCP) and judged by Trace_Conn.tla; the recorded finding is matched by scenario class and outcome",
